@@ -246,9 +246,9 @@ func HavingExpr(rng *rand.Rand, kinds map[string]string, depth int, mismatch boo
 	}
 	switch k {
 	case "int64":
-		e.RLit = MustLitI([]int64{-7, -4, -3, 0, 1, 4, 5, 11, 12, 100, -100, 2, 3}[rng.Intn(13)])
+		e.RLit = MustLitI([]int64{-7, -4, -3, 0, 1, 4, 5, 11, 12, 100, -100, 2, 3, 9007199254740992, 9007199254740993, 9223372036854775806, -9223372036854775807}[rng.Intn(17)])
 	case "float64":
-		e.RLit = MustLitF([]float64{-2.5, -2.75, 0, 0.25, 0.2500001, 3, 2.999, 1e32, -1e32, 1e-9, 0.5}[rng.Intn(11)])
+		e.RLit = MustLitF([]float64{-2.5, -2.75, 0, 0.25, 0.2500001, 3, 2.999, 1e32, -1e32, 1e-9, 0.5, 1.0000001, 1.00000015, 1.0000002}[rng.Intn(14)])
 	case "text":
 		e.RLit = MustLitT([]string{"abc", "ab", "b c", "a", "abd", "", "!", "/u", "u", "a b", "b", "c", "p", "q", "_r", "/t", "/u/x"}[rng.Intn(17)])
 	case "time":
@@ -276,9 +276,50 @@ func HavingExpr(rng *rand.Rand, kinds map[string]string, depth int, mismatch boo
 	return e
 }
 
+// BoundAliasStatement draws a SELECT whose later clause has a predicate bound
+// with binding limits ("id"@[?lo,?hi]) and shares a binding with an earlier
+// clause; the limit bindings are bound to times earlier, bound to other
+// values, or not bound at all.
+func BoundAliasStatement(rng *rand.Rand, data []*triple.Triple) string {
+	cs := MatchingPattern(rng, data, 1)
+	first := cs[0]
+	lo, hi := "?lo", "?hi"
+	switch rng.Intn(4) {
+	case 0: // bound to times by the first clause
+		first.P = bq.PB([]string{"p", "q"}[rng.Intn(2)], "?lo")
+		first.PAs, first.PID, first.PAt = "", "", ""
+		hi = []string{"", "?lo", "?hi"}[rng.Intn(3)]
+	case 1: // bound to a non-time value
+		if bs := first.Bindings(); len(bs) > 0 {
+			lo = bs[rng.Intn(len(bs))]
+		}
+	case 2:
+		lo = ""
+	}
+	share := "?s9"
+	if bs := first.Bindings(); len(bs) > 0 && rng.Intn(4) != 0 {
+		share = bs[rng.Intn(len(bs))]
+	}
+	second := bq.Clause{S: bq.B(share), P: bq.PBdB([]string{"p", "q"}[rng.Intn(2)], lo, hi), O: bq.B("?x9")}
+	if rng.Intn(3) == 0 {
+		second.S, second.O = bq.B("?y9"), bq.B(share)
+	}
+	if rng.Intn(5) == 0 {
+		second.Optional = true
+	}
+	q := SelectAll([]bq.Clause{first, second}, someGraphs(rng, 1))
+	if len(q.Vars) == 0 {
+		q.Vars = []bq.Proj{{Binding: "?x9"}}
+	}
+	return q.Text()
+}
+
 // RandomStatement draws a statement of any of the eight kinds, semantically
 // plausible but not necessarily valid (C08).
 func RandomStatement(rng *rand.Rand, data []*triple.Triple) string {
+	if rng.Intn(12) == 0 {
+		return BoundAliasStatement(rng, data)
+	}
 	switch rng.Intn(12) {
 	case 0:
 		return DataStmt(rng, "insert", data).Text()
@@ -315,6 +356,25 @@ func RandomStatement(rng *rand.Rand, data []*triple.Triple) string {
 		bs := last.Bindings()
 		if len(all) > 0 && len(bs) > 0 {
 			cs[len(cs)-1] = RenameBinding(last, bs[rng.Intn(len(bs))], all[rng.Intn(len(all))])
+		}
+	}
+	// bounds whose limits are bindings: bound earlier, bound to a non-time
+	// value, or never bound at all
+	if rng.Intn(4) == 0 {
+		var all []string
+		for _, c := range cs {
+			all = append(all, c.Bindings()...)
+		}
+		all = append(all, "?unbound1", "?unbound2")
+		i := rng.Intn(len(cs))
+		b := bq.PBdB([]string{"p", "q"}[rng.Intn(2)], all[rng.Intn(len(all))], all[rng.Intn(len(all))])
+		if rng.Intn(3) == 0 {
+			b.HiB = ""
+		}
+		if rng.Intn(2) == 0 {
+			cs[i].P, cs[i].PAs, cs[i].PID, cs[i].PAt = b, "", "", ""
+		} else {
+			cs[i].O, cs[i].OAs, cs[i].OType, cs[i].OID, cs[i].OAt = b, "", "", "", ""
 		}
 	}
 	q := SelectAll(cs, someGraphs(rng, 1+rng.Intn(2)))
